@@ -72,7 +72,7 @@ def parse_pattern(p):
     return "mkpp %s %s %s %s" % (name, allv, neg, lim), binds
 
 
-TOKEN_RE = re.compile(r"\s*(TEXTWS|TOGGLE|TSEQ|\|\||&&|>=|<=|==|!=|[<>!(){};,=*-]|[A-Za-z_][\w.]*|\d+)")
+TOKEN_RE = re.compile(r"\s*(TEXTWS|TOGGLE|TSEQ|IFFOLD|SOMEEQ|LEFTB|RIGHTE|\|\||&&|>=|<=|==|!=|[<>!(){};,=*-]|[A-Za-z_][\w.]*|\d+)")
 
 
 def tokenize(s):
@@ -90,8 +90,9 @@ def tokenize(s):
 class P:
     """recursive descent; every node is ('n', coq) for a number or ('b', coq) for a boolean"""
 
-    def __init__(self, toks, binds):
+    def __init__(self, toks, binds, foldvar=None, atoms=None):
         self.t, self.i, self.binds, self.var = toks, 0, binds, None
+        self.foldvar, self.atoms = foldvar, (ATOMS if atoms is None else atoms)
 
     def peek(self):
         return self.t[self.i] if self.i < len(self.t) else None
@@ -139,10 +140,16 @@ class P:
 
     def ifexpr(self):
         self.eat("if")
-        c = self.boolean(self.orexpr())
+        if self.peek() == "IFFOLD":
+            self.eat()
+            c = None
+        else:
+            c = self.boolean(self.orexpr())
         t = self.boolean(self.block())
         self.eat("else")
         e = self.boolean(self.ifexpr() if self.peek() == "if" else self.block())
+        if c is None:
+            return ("b", "(BIfFold %s %s)" % (t, e))
         return ("b", "(BIf %s %s %s)" % (c, t, e))
 
     def orexpr(self):
@@ -209,10 +216,21 @@ class P:
             b = self.num(self.arith())
             self.eat(")")
             return ("b", "(BTextWs %s %s)" % (a, b))
+        if tok == "SOMEEQ":
+            self.eat("(")
+            a = self.num(self.arith())
+            self.eat(")")
+            return ("b", "(BSomeEqFold %s)" % a)
+        if tok == "LEFTB":
+            return ("n", "NLeftB")
+        if tok == "RIGHTE":
+            return ("n", "NRightE")
         if tok.isdigit():
             return ("n", "(NLit %s)" % tok)
-        if tok in ATOMS:
-            return ("n", ATOMS[tok])
+        if tok in self.atoms:
+            return ("n", self.atoms[tok])
+        if self.foldvar is not None and tok == self.foldvar:
+            return ("n", "NFold")
         if tok == "allow_whitespace":
             if tok not in self.binds:
                 raise T.TranslateError("allow_whitespace is not bound by the pattern")
